@@ -9,7 +9,7 @@ from fractions import Fraction
 
 from vk import env as _env  # noqa: F401
 from vk.core import rng_for, simple_plan, h
-from vk.gen.temporal import gen_problem_fixed as gen_problem
+from vk.gen.temporal import FixedG
 from vk.recipe import instantiate_problem
 from vk.ref import seqsem
 from vk.ref.evalx import Unsupported
@@ -30,7 +30,9 @@ LEVEL_NOTE = (
     "invariants) and labels the witness; it never decides a verdict."
 )
 RULE = (
-    "cases = generated problem recipes (C01 grammar incl. bounded numeric fluents, invariants, conditional/forall effects; goals "
+    "cases = generated problem recipes (C01 grammar incl. bounded numeric fluents, invariants, conditional/forall effects; for a "
+    "share of the problems widened with invariants that reach the constrained fluent indirectly - through an object-valued fluent used "
+    "as an argument, ground / quantified / guarded - plus actions writing the outer or the inner fluent, see IndirectG; goals "
     "dropped for half of the problems so that they do not mask the last step); per problem up to PLANS plans of length <= L taken "
     "from a reference-guided DFS: every reference-valid prefix and every one-step extension that the reference calls "
     "inapplicable / don't-care. evaluations = plans whose three verdicts (sequential, time-triggered, time-triggered shuffled) "
@@ -43,7 +45,272 @@ ASSUMPTIONS = [
 ]
 SHARD_TIMEOUT = {"quick": 600, "thorough": 5400}
 BOUNDS = {"quick": dict(n=700, L=3, plans=10, max_inst=14), "thorough": dict(n=12000, L=4, plans=24, max_inst=20)}
-PROFILE = dict(invariants=0.4, undefined_init=0.08, interpreted_functions=0.0, max_depth=1)
+PROFILE = dict(invariants=0.4, undefined_init=0.08, interpreted_functions=0.0, max_depth=1, indirect_invariants=0.3)
+
+
+# ---- workload: the C01 grammar widened with invariants that reach a fluent *indirectly* ---------------------------------
+def _nested(e):
+    """True iff the expression recipe applies a fluent to an argument that is itself a fluent application."""
+    if not isinstance(e, list):
+        return False
+    if e and e[0] == "f" and any(isinstance(a, list) and a and a[0] == "f" for a in e[2:]):
+        return True
+    return any(_nested(a) for a in e[1:])
+
+
+def _forall_self_conflict(action):
+    """Some forall effect of the action has a target that does not mention all of its quantified variables while its value or
+    condition does: several instances of that single effect write one ground fluent."""
+    from vk.ref.evalx import free_vars
+
+    for eff in action.effects:
+        vs = {v.name for v in eff.forall}
+        if vs and not vs <= free_vars(eff.fluent) and (vs & (free_vars(eff.value) | free_vars(eff.condition))):
+            return True
+    return False
+
+
+def _nested_names(e, out):
+    if not isinstance(e, list):
+        return
+    if e and e[0] == "f":
+        for a in e[2:]:
+            if isinstance(a, list) and a and a[0] == "f":
+                out["outer"].add(e[1])
+                out["inner"].add(a[1])
+    for a in e[1:]:
+        _nested_names(a, out)
+
+
+def _ground_fluent_atoms(e, out):
+    """Names+constant arguments of the fluent applications whose arguments are all object constants."""
+    if not isinstance(e, list):
+        return out
+    if e and e[0] == "f" and all(isinstance(a, list) and a and a[0] == "o" for a in e[2:]):
+        out.add((e[1], tuple(a[1] for a in e[2:])))
+    for a in e[1:]:
+        _ground_fluent_atoms(a, out)
+    return out
+
+
+class IndirectG(FixedG):
+    """The C01 grammar (vk.gen.problem.G, objs_of repaired) widened for state invariants that reach the constrained ground
+    fluent only *indirectly*: through an object-valued fluent used as an argument (`p(g(o))`, `forall v. q(v) -> not p(g(v))`)
+    or through a quantified variable.  With probability `indirect_invariants` a problem gets
+      * an object-valued fluent with one parameter (the *inner* fluent; an existing one is reused when there is one) and an
+        *outer* fluent (boolean / numeric) with a parameter that accepts the inner fluent's values;
+      * one or two invariants over `outer(inner(.))`: ground, universally / existentially quantified, guarded by a grammar
+        atom, or a plainly quantified `forall v. lit(outer(v))`; built to hold in the initial state;
+      * optionally actions that write the outer fluent (`outer(y) := c`, also guarded by `inner(y1) == y`, increase) or re-route the
+        inner fluent (`inner(y0) := y1`), with grammar-generated preconditions.
+    Everything else (types, objects, other fluents, actions, goals, other invariants) is the unchanged grammar."""
+
+    def gen(self):
+        self.nest = None
+        self.new_fluents = []
+        # decided on a copy of the case RNG: the problems that are not widened are exactly those of the plain grammar
+        import random
+
+        r2 = random.Random()
+        r2.setstate(self.rng.getstate())
+        want = r2.random() < self.pf.get("indirect_invariants", 0.0)
+        rec = G_gen(self)
+        if want:
+            # the widening draws from the copy only: the grammar part of a widened problem (and the RNG state the plan search
+            # starts from) is exactly what the plain grammar produces for the case
+            main, self.rng = self.rng, r2
+            try:
+                self.declare_nest()
+                self.widen(rec)
+            finally:
+                self.rng = main
+        return rec
+
+    # -- fluents
+    def declare_nest(self):
+        r = self.rng
+        inner_c = [f for f in self.fluents if f["type"][0] == "user" and len(f["sig"]) == 1]
+        if inner_c and r.random() < 0.7:
+            inner = r.choice(inner_c)
+        else:
+            t = r.choice(self.types)[0]
+            t2 = r.choice(self.types)[0]
+            inner = {"name": self.name("f", len(self.fluents)), "type": ["user", t], "sig": [["x0", ["user", t2]]], "default": None}
+            self.fluents.append(inner)
+            self.new_fluents.append(inner)
+        t = inner["type"][1]
+        outer_c = []
+        for f in self.fluents:
+            if f is inner or f["type"][0] == "user":
+                continue
+            for k, (_, pt) in enumerate(f["sig"]):
+                if t in self.subtypes(pt[1]):
+                    outer_c.append((f, k))
+        if outer_c and r.random() < 0.6:
+            outer, k = r.choice(outer_c)
+        else:
+            anc = [n for n, _ in self.types if t in self.subtypes(n)]
+            ft = "bool" if r.random() < 0.7 else ["int", None, None]
+            outer = {"name": self.name("f", len(self.fluents)), "type": ft, "sig": [["x0", ["user", r.choice(anc)]]], "default": None}
+            k = 0
+            self.fluents.append(outer)
+            self.new_fluents.append(outer)
+        self.nest = (inner, outer, k)
+        self.feat.add("indirect-invariant")
+
+    # -- initial values, invariants, writer actions (after the grammar is done)
+    def widen(self, rec):
+        r = self.rng
+        inner, outer, k = self.nest
+        init = rec["init"]
+        for f in self.new_fluents:
+            for args in self.ground_args(f):
+                v = self.const_for(f["type"])
+                if v is not None:
+                    init.append([["f", f["name"]] + [["o", a] for a in args], v])
+
+        def init_val(f, args):
+            key = ["f", f["name"]] + [["o", a] for a in args]
+            for fe, v in init:
+                if fe == key:
+                    return v
+            return f["default"]
+
+        def set_init(f, args, v):
+            key = ["f", f["name"]] + [["o", a] for a in args]
+            for ent in init:
+                if ent[0] == key:
+                    ent[1] = v
+                    return
+            init.append([key, v])
+
+        dom = self.objs_of(inner["sig"][0][1][1])
+        others = {}
+        for j, (_, pt) in enumerate(outer["sig"]):
+            if j != k:
+                others[j] = r.choice(self.objs_of(pt[1]))
+
+        def outer_at(term):
+            return ["f", outer["name"]] + [term if j == k else ["o", others[j]] for j in range(len(outer["sig"]))]
+
+        def outer_args(o):
+            return tuple(o if j == k else others[j] for j in range(len(outer["sig"])))
+
+        def image(o):
+            v = init_val(inner, (o,))
+            return None if v is None else v[1]
+
+        def lit(term, vals):
+            """a literal over outer(term) that holds for all the given initial values (None when one is undefined)"""
+            if any(v is None for v in vals) or not vals:
+                return None, None
+            if outer["type"] == "bool":
+                b = r.choice(vals)[1]
+                return (outer_at(term) if b else ["not", outer_at(term)]), ["b", b]
+            xs = [Fraction(v[1]) for v in vals]
+            if r.random() < 0.5:
+                return ["le", outer_at(term), ["r", str(max(xs) + r.choice([0, 0, 1, 2]))]], None
+            return ["ge", outer_at(term), ["r", str(min(xs) - r.choice([0, 0, 1, 2]))]], None
+
+        vt = inner["sig"][0][1]
+        var = ["q_" + vt[1], vt]
+        vterm = ["v", var[0], var[1]]
+        invs = []
+        for _ in range(r.choice([1, 1, 2])):
+            shape = r.choice(["ground", "forall", "forall", "guarded", "guarded", "exists", "plain-forall"])
+            imgs = [image(o) for o in dom]
+            if shape == "plain-forall":
+                pt = outer["sig"][k][1]
+                pv = ["q_" + pt[1], pt]
+                objs = self.objs_of(pt[1])
+                l, b = lit(["v", pv[0], pv[1]], [init_val(outer, outer_args(o)) for o in objs])
+                if l is None:
+                    continue
+                if b is not None:
+                    for o in objs:
+                        set_init(outer, outer_args(o), b)
+                invs.append(["forall", [pv], l])
+            elif shape == "ground":
+                o = r.choice(dom)
+                if image(o) is None:
+                    continue
+                l, _ = lit(["f", inner["name"], ["o", o]], [init_val(outer, outer_args(image(o)))])
+                if l is not None:
+                    invs.append(l)
+            elif shape == "exists":
+                o = r.choice(dom)
+                if image(o) is None:
+                    continue
+                l, _ = lit(["f", inner["name"], vterm], [init_val(outer, outer_args(image(o)))])
+                if l is not None:
+                    invs.append(["exists", [var], l])
+            else:
+                if any(i is None for i in imgs):
+                    continue
+                l, b = lit(["f", inner["name"], vterm], [init_val(outer, outer_args(i)) for i in imgs])
+                if l is None:
+                    continue
+                if b is not None:
+                    for i in imgs:
+                        set_init(outer, outer_args(i), b)
+                if shape == "guarded":
+                    bf = [f for f in self.fluents if f["type"] == "bool" and f is not outer and len(f["sig"]) == 1 and vt[1] in self.subtypes(f["sig"][0][1][1])]
+                    guard = ["f", r.choice(bf)["name"], vterm] if bf and r.random() < 0.6 else self.atom({"vars": [var]})
+                    l = ["implies", guard, l]
+                invs.append(["forall", [var], l])
+            self.feat.add("indirect-invariant:" + shape)
+        rec["invariants"] = list(rec["invariants"]) + invs
+        if invs:
+            self.feat.add("invariant")
+        # writer actions
+        acts = rec["actions"]
+        pt = outer["sig"][k][1]
+        if r.random() < 0.7:
+            params = [["y0", pt]]
+            tgt = ["p", "y0"]
+            via = []
+            if r.random() < 0.25:
+                # the written instance is the one the inner fluent points to (the model API refuses `outer(inner(y)) := c`)
+                params = [["y0", pt], ["y1", vt]]
+                via = [["eq", ["f", inner["name"], ["p", "y1"]], ["p", "y0"]]]
+            sc = {"params": params}
+            fa = []
+            if not via and r.random() < 0.15:
+                # forall-effect over the outer fluent's parameter
+                fa = [["e_" + pt[1], pt]]
+                tgt = ["v", fa[0][0], pt]
+                params = []
+                sc = {"params": params, "vars": fa}
+            if outer["type"] == "bool":
+                eff = {"kind": "assign", "fluent": outer_at(tgt), "value": ["b", r.random() < 0.5], "cond": None, "forall": fa}
+            else:
+                kind = r.choice(["inc", "dec", "assign"])
+                val = ["i", r.choice([1, 2, 3])] if kind != "assign" else self.const_for(outer["type"])
+                eff = {"kind": kind, "fluent": outer_at(tgt), "value": val, "cond": None, "forall": fa}
+            if r.random() < 0.2:
+                eff["cond"] = self.boolean(1, sc)
+            pre = via + ([self.boolean(1, {"params": params})] if r.random() < 0.3 else [])
+            acts.append({"name": self.name("a", len(acts)), "params": params, "pre": pre, "effects": [eff]})
+            self.feat.add("writer:outer")
+        if r.random() < 0.5:
+            params = [["y0", vt], ["y1", inner["type"]]]
+            sc = {"params": params}
+            eff = {"kind": "assign", "fluent": ["f", inner["name"], ["p", "y0"]], "value": ["p", "y1"], "cond": None, "forall": []}
+            pre = [self.boolean(1, sc)] if r.random() < 0.3 else []
+            acts.append({"name": self.name("a", len(acts)), "params": params, "pre": pre, "effects": [eff]})
+            self.feat.add("writer:inner")
+
+
+def G_gen(g):
+    from vk.gen.problem import G
+
+    return G.gen(g)
+
+
+def gen_problem(rng, profile=None):
+    g = IndirectG(rng, profile)
+    rec = g.gen()
+    return rec, sorted(g.feat)
 
 
 def plan(tier, seed):
@@ -71,7 +338,7 @@ def candidate_plans(pb, rng, b):
     if len(insts) > b["max_inst"]:
         insts = rng.sample(insts, b["max_inst"])
     s0 = seqsem.initial_state(pb)
-    out = {"hot": [], "valid": [], "cold": []}
+    out = {"hot": [], "valid": [], "cold": [], "changed": {}}
     stack = [([], s0, set())]
     nodes = 0
     while stack and nodes < 400:
@@ -99,6 +366,8 @@ def candidate_plans(pb, rng, b):
                     out["cold"].append((path + [step], "ref-precondition-false", False))
                 else:
                     out["hot"].append((path + [step], "ref-" + r.reason + ":last-step", True))
+                    if r.reason == "invariant":
+                        out["changed"][str(path + [step])] = sorted(r.info.get("changed", ()), key=str)
                     # ... and followed by one more step (the violation is then not at the last happening)
                     if len(path) + 1 < b["L"] and rng.random() < 0.5:
                         a2, args2 = rng.choice(insts)
@@ -148,7 +417,17 @@ def run_case(key, tier, b, res):
         res.count("skipped_initial_state_precondition")
         return
     res.count("problems")
+    for ft in feats:
+        if ft.startswith(("indirect-invariant", "writer:")):
+            res.count("feature:" + ft)
     pid = h(rec)
+    inv_atoms = set()
+    for iv in rec["invariants"]:
+        _ground_fluent_atoms(iv, inv_atoms)
+    has_nested = any(_nested(iv) for iv in rec["invariants"])
+    nested_names = {"outer": set(), "inner": set()}
+    for iv in rec["invariants"]:
+        _nested_names(iv, nested_names)
     cands = candidate_plans(pb, rng, b)
     chosen = []
     nh = (b["plans"] * 5) // 10
@@ -216,6 +495,21 @@ def run_case(key, tier, b, res):
         res.count("label:" + label.split(":")[0] + (":" + label.split(":")[1] if label.startswith("ref-dontcare") else ""))
         if label.startswith(("ref-bounds", "ref-invariant")):
             res.count("class:" + label[4:])
+        ch = cands["changed"].get(str(steps))
+        if ch is not None and label == "ref-invariant:last-step":
+            # the invariant breaks through ground fluents that no invariant names literally (they are reached through a
+            # fluent-valued argument or a quantified variable)
+            if not any((n, tuple(a)) in inv_atoms for n, a in ch):
+                res.count("class:invariant:broken-indirectly")
+                if has_nested:
+                    res.count("class:invariant:broken-indirectly:nested-argument")
+                    names = {n for n, _ in ch}
+                    for n in sorted(names & nested_names["outer"]):
+                        res.count("class:invariant:broken-indirectly:outer-written")
+                        break
+                    for n in sorted(names & nested_names["inner"]):
+                        res.count("class:invariant:broken-indirectly:inner-written")
+                        break
         if nontrivial:
             res.nt((pid, plan_json))
         if tt != tt2:
@@ -226,6 +520,11 @@ def run_case(key, tier, b, res):
             mlabel = "same-value-twice" if "same value assigned twice" in label or "same-value-twice" in label else label
             if mlabel.startswith("ref-bounds"):
                 mlabel = "ref-bounds"
+            if mlabel.startswith("ref-conflicting-assignments"):
+                # one string per root cause, wherever the step is: the conflict arises among the instances of ONE forall effect
+                # whose target does not mention (all of) its variables, or between different effects
+                k = len(steps) - 1 if mlabel.endswith(":last-step") else len(steps) - 2
+                mlabel = "ref-conflicting-assignments" + (":within-one-forall-effect" if 0 <= k and _forall_self_conflict(steps[k][0]) else "")
             res.violation(
                 f"tt-{tt}/seq-{sq}:{mlabel}",
                 f"time-triggered validation says {tt}, sequential validation says {sq} for plan {plan_json} at times {[str(t) for t in times]} (reference: {label})",
@@ -244,6 +543,9 @@ def thresholds(m):
     nb = c.get("class:bounds:last-step", 0) + c.get("class:bounds:inner-step", 0)
     if nb < 2:
         out.append(f"fewer than 2 plans drive a bounded fluent out of bounds ({nb})")
+    for k, n in (("broken-indirectly", 10), ("broken-indirectly:outer-written", 3), ("broken-indirectly:inner-written", 3)):
+        if c.get("class:invariant:" + k, 0) < n:
+            out.append(f"fewer than {n} plans break an invariant at the last step in class '{k}' ({c.get('class:invariant:' + k, 0)})")
     if c.get("class:invariant:last-step", 0) < 2:
         out.append(f"fewer than 2 plans violate an invariant at the last step ({c.get('class:invariant:last-step', 0)})")
     if c.get("label:ref-valid", 0) < 20:
